@@ -41,6 +41,7 @@ the code as it is. They exist so that the search can attribute a witness to a ro
 -/
 import Liftbridge.Model.Log
 import Liftbridge.Gen.Protocol
+import Liftbridge.Gen.Pipeline
 
 namespace Liftbridge.Protocol
 open Liftbridge Liftbridge.Log
@@ -424,11 +425,18 @@ def publishStep (c : Cfg) (me : Sid) (sv : Srv) (batch : List PubMsg) : Option (
     some ({ sv with log := log, queue := sv.queue ++ queued, isrOff := isr, commitCheck := cc },
           published (nacks ++ sent))
 
+/-- The gate of `commitLoop`: "no commit below min ISR". Only a comparison of the CURRENT size of
+`p.isr` with `p.minISR` counts (regenerated structural fact `Gen.Pipeline.commitGateCurrentIsr`: the
+condition of the first `if … { …; continue }` before the commit queue is consulted); a gate that
+reads anything else — a cached flag maintained by ISR transitions, say — is no gate for the model. -/
+def commitGate (c : Cfg) (sv : Srv) : Bool :=
+  Gen.Pipeline.commitGateCurrentIsr && Gen.Protocol.commitMinISRCmp.evalNat sv.isrOff.length c.minISR
+
 /-- One iteration of `commitLoop` on a leader (after a commit-check signal). Returns the new
 server state and the acks sent. -/
 def commitStep (c : Cfg) (sv : Srv) : Srv × List Ack :=
   let sv := { sv with commitCheck := sv.commitCheck - 1 }
-  if Gen.Protocol.commitMinISRCmp.evalNat sv.isrOff.length c.minISR then (sv, []) else
+  if commitGate c sv then (sv, []) else
   let minLatest := goMin (sv.isrOff.map (·.2))
   let committed := sv.queue.takeWhile (fun a => Gen.Protocol.commitTakeCmp.evalInt a.offset minLatest)
   let rest := sv.queue.dropWhile (fun a => Gen.Protocol.commitTakeCmp.evalInt a.offset minLatest)
